@@ -4,7 +4,7 @@ from sym import kernels as K, l1 as L1m, l2 as L2m, exec as X, dom_lf, dom_bv, a
 from sym.dom_lf import LF, LFCond
 from sym.check import Ob
 from .common import setup, run_kernels
-from . import c01, c06, c07, c16
+from . import c01, c06, c07, c09, c16
 
 E, F = K.E, K.F
 P = K.P
@@ -232,7 +232,7 @@ def run(chk):
               ("Element.Set", lambda: k_field_alias(base, chk, "Set", 1, ("a", lambda d, p, a: a))),
               ("Element.Mult32", lambda: k_field_alias(base, chk, "Mult32", 1, ("a*y", lambda d, p, a, y: d.mul(p, a, y)), extra=lambda k: k.dom.input("y", 0, 2**32 - 1))),
               ("Element.Invert", lambda: k_chain_alias(base, chk, "Invert")), ("Element.Pow22523", lambda: k_chain_alias(base, chk, "Pow22523")),
-              ("Element.Absolute", lambda: k_absolute_alias(base, chk)),
+              ("Element.Absolute", lambda: c09.k_absolute(base, chk, alias=True)),
               ("Element.Select/Swap", lambda: K.k_select_swap(base, chk)),
               ("Element.SqrtRatio", lambda: k_sqrt_alias(base, chk)),
               ("Element.Equal", lambda: K.k_equal_isneg(base, chk)),
@@ -287,3 +287,8 @@ def run(chk):
     for key, pred, bat in groups:
         L1m.settle(chk, [o for o in chk.obs if pred(o)], bat, key)
     chk.samples = [o.j() for o in chk.obs if "[" in o.name and "=" in o.name.split("[")[1][:12]][:8]
+
+
+def safety_net(chk):
+    return (alias_battery(chk.seed) or c09.absolute_battery(chk.seed) or c07.safety_net(chk) or ptreplay.battery_binary("P.Add", chk.seed, lambda p, q: ref.ed_add(p, q))
+            or ptreplay.battery_scalarmult(chk.seed, maxn=3))
